@@ -760,6 +760,10 @@ func worldC19(w *World) {
 		// in the URL (the URL of a repeated GET equals the first one's)
 		after        *creq
 		dynReqSize   int // request body size decided at run time (calibrated)
+		// cronAfterPost: the platform's periodic clean-up call (cron.yaml: /cron/delete)
+		// arrives right after the agent's response was stored, before the client's
+		// next look
+		cronAfterPost bool
 		urlTok       string
 		cacheControl string
 	}
@@ -778,6 +782,7 @@ func worldC19(w *World) {
 		c.respond = !t.Rare(1, 6, "neveranswered")
 		c.respDelay = []time.Duration{0, time.Second, 10 * time.Second, 29 * time.Second}[t.Choice(4, "respdelay")]
 		c.urlTok = c.tok
+		c.cronAfterPost = t.Rare(1, 4, "cronafterpost")
 		if t.Rare(1, 4, "exactresp") {
 			c.exactResp = t.Range(1, 3, "exactrespk")
 		}
@@ -1064,6 +1069,14 @@ func worldC19(w *World) {
 						armBoth = 0
 						fmu.Unlock()
 						note(pk, pr)
+						if c.cronAfterPost {
+							ck := begin("cron")
+							cr := gaeCall(w, plat, "api", simplatform.Identity{}, "GET", "/cron/delete", http.Header{"X-Appengine-Cron": {"true"}}, nil)
+							note(ck, cr)
+							if cr.Status == 200 {
+								w.Probe("cleanup_cron_between_post_and_pickup")
+							}
+						}
 						mu.Lock()
 						c.posted = resp
 						c.postStatus = pr.Status
